@@ -85,9 +85,9 @@ def make_block(case: dict[str, Any]) -> dict[str, Any]:
     uid = itertools.count(1)
     ds = []
     for i, (en, ex, y) in enumerate(case["disposables"]):
-        ys = {"none": [], "one": [[("D1", "R1", "BoxInt", "R2")[i % 4], next(uid)]], "list": [["R3", next(uid)], [("D2", "BoxStr")[i % 2], next(uid)]], "empty-list": [],
+        ys = {"bad-generator": [["R3", next(uid)]], "none": [], "one": [[("D1", "R1", "BoxInt", "R2")[i % 4], next(uid)]], "list": [["R3", next(uid)], [("D2", "BoxStr")[i % 2], next(uid)]], "empty-list": [],
               "generator": [["R3", next(uid)], [("D2", "BoxStr")[i % 2], next(uid)]], "iter": [[("D1", "R1", "BoxInt", "R2")[i % 4], next(uid)]], "map": [["R3", next(uid)]], "tuple": [["R3", next(uid)], ["D2", next(uid)]]}[y]
-        ds.append({"yield": ys, "enter": en, "exit": ex, "form": y if y in ("list", "empty-list", "generator", "iter", "map", "tuple") else "auto", "falsy": (i + len(case["disposables"])) % 2 == 0, "awaitable": (i + len(en) + len(case["disposables"])) % 3 == 1})
+        ds.append({"yield": ys, "enter": en, "exit": ex, "form": y if y in ("list", "empty-list", "generator", "iter", "map", "tuple") else ("bad-generator" if y == "bad-generator" else "auto"), "falsy": (i + len(case["disposables"])) % 2 == 0, "awaitable": case.get("awaitable_all") or (i + len(en) + len(case["disposables"])) % 3 == 1})
     return {"op": "block", "kind": "ascope", "name": "blk", "supply": [["SubD1", next(uid)]], "disposables": ds, "body": [{"op": "probe", "id": 1}], "exit": {"kind": case["body"]}, "catch": True}
 
 
@@ -177,7 +177,7 @@ def judge(R: Recorder, case: dict[str, Any], chooser: Chooser, W: World, status:
     caught = W.caught.get("blk")
     enter_failed = [d for d in ds if d.enter_err is not None]
     exit_failed = [d for d in ds if d.exit_err is not None]
-    enter_scripted_fail = any(en.endswith("raise") for en, _, _ in specs)
+    enter_scripted_fail = any(en.endswith("raise") or y == "bad-generator" for en, _, y in specs)
     if enter_failed:
         R.count("cases_with_enter_error")
     if exit_failed:
@@ -246,7 +246,11 @@ def judge(R: Recorder, case: dict[str, Any], chooser: Chooser, W: World, status:
                   detail=f"enter errors {[d.enter_err for d in enter_failed]!r}; caller caught {caught!r}", case=rec)
     if body_started and not exit_failed:
         raised = W.raised.get("blk")
-        if raised is None:
+        if body == "cancel-pending":
+            # the body asked for its own cancellation and returned: the request arrives while the block is being left
+            R.count("cancel_pending_when_the_body_ended")
+            R.monitor("body-exception", isinstance(caught, asyncio.CancelledError), where={**w0, "kind": "pending-cancellation-lost"}, detail=f"the body requested cancellation of its task and returned; the block then raised {caught!r}", case=rec)
+        elif raised is None:
             R.monitor("body-exception", caught is None, where={**w0, "kind": "spurious-exception"}, detail=f"body returned, cleanup was fault free, caller caught {caught!r}", case=rec)
         else:
             R.monitor("body-exception", caught is raised, where={**w0, "kind": "exception-replaced-or-swallowed"}, detail=f"body raised {raised!r}, caller caught {caught!r}", case=rec)
@@ -283,6 +287,16 @@ def cases(tier: str, rng: random.Random):  # noqa: ANN201
     for y in ys:
         for body in BODIES:
             yield {"disposables": [["ok", "ok", y]], "body": body}
+    # the body leaves a cancellation request behind (asked for, not yet delivered); resources whose states come from a failing lazy iterable;
+    # a plain __aexit__ that fails before handing out its awaitable
+    for n in (1, 2):
+        for combo in itertools.product(("ok", "gate"), repeat=n):
+            yield {"disposables": [["ok", ex, ys[i % 8]] for i, ex in enumerate(combo)], "body": "cancel-pending"}
+    for others in ([], [["ok", "ok", "one"]], [["gate", "gate", "none"]], [["ok", "ok", "list"], ["gate", "ok", "none"]]):
+        for body in BODIES[:3]:
+            yield {"disposables": [*others, ["ok", "ok", "bad-generator"]], "body": body}
+            yield {"disposables": [["ok", "sync-raise", "none"], *others], "body": body, "awaitable_all": True}
+            yield {"disposables": [*others, ["ok", "sync-raise", "none"]], "body": body, "awaitable_all": True}
     # the owning task is cancelled from outside at a scheduler-chosen moment, also while disposables are being entered
     for n in range(1, maxn + 2):
         for combo in itertools.product(itertools.product(("ok", "gate"), ("ok", "gate")), repeat=n):
